@@ -6,6 +6,7 @@ import (
 	"go/types"
 	"sort"
 	"strings"
+	"time"
 
 	"golang.org/x/tools/go/ssa"
 
@@ -47,41 +48,46 @@ type Stats struct {
 	UnsupportedPaths                          []string
 }
 
+// HookFn intercepts a call; handled=false continues with the normal dispatch.
+type HookFn func(in *Interp, fn *ssa.Function, args []Value) (res Value, handled bool)
+
 type Interp struct {
-	P        *Program
-	St       *smt.Store
-	Sol      *smt.Solver
-	gs       []gframe
-	nextGID  int
-	Valid    *smt.Term // accumulated assumptions (assumes, absence of earlier panics)
-	Obls     []*Obligation
-	Nondets  []*smt.Term
-	Exports  map[string]Value
-	globals  map[*ssa.Global]*Object
-	nobj     int
-	MaxUnion int
+	P         *Program
+	St        *smt.Store
+	Sol       *smt.Solver
+	gs        []gframe
+	nextGID   int
+	Valid     *smt.Term // accumulated assumptions (assumes, absence of earlier panics)
+	Obls      []*Obligation
+	Verdicts  []Verdict
+	Nondets   []*smt.Term
+	Exports   map[string]Value
+	globals   map[*ssa.Global]*Object
+	nobj      int
+	MaxUnion  int
 	MaxUnwind int
 	MaxInstrs int
-	Stats    Stats
-	initDone map[*ssa.Package]bool
-	InitPkgs map[string]bool // packages whose init is interpreted
-	lenient  bool // during package init: unsupported calls return zero values
-	depth    int
-	Trace    bool
+	Deadline  time.Time
+	Stats     Stats
+	initDone  map[*ssa.Package]bool
+	InitPkgs  map[string]bool // packages whose init is interpreted
+	lenient   bool            // during package init: unsupported calls return zero values
+	depth     int
+	Trace     bool
 	// IgnorePanics: panics (bounds, nil, explicit) are treated as path ends that
 	// are assumed away instead of obligations.
 	PanicAsObligation bool
-	Hooks    map[string]func(in *Interp, args []Value) Value // per-run call intercepts by full function name
-	sched    *scheduler
-	nondetCount map[string]int
-	curPos   token.Pos
-	LastKill string
+	Hooks             map[string]HookFn // per-run call intercepts by full function name; handled=false falls through
+	sched             *scheduler
+	nondetCount       map[string]int
+	curPos            token.Pos
+	LastKill          string
 }
 
 func NewInterp(p *Program, st *smt.Store, sol *smt.Solver) *Interp {
 	in := &Interp{P: p, St: st, Sol: sol, Valid: st.T, globals: map[*ssa.Global]*Object{},
 		MaxUnion: 16, MaxUnwind: 40, MaxInstrs: 50_000_000, initDone: map[*ssa.Package]bool{}, InitPkgs: map[string]bool{},
-		Exports: map[string]Value{}, Hooks: map[string]func(*Interp, []Value) Value{}, nondetCount: map[string]int{}}
+		Exports: map[string]Value{}, Hooks: map[string]HookFn{}, nondetCount: map[string]int{}}
 	in.Stats.Funcs = map[string]int{}
 	in.Stats.Natives = map[string]int{}
 	in.Stats.Stubs = map[string]int{}
@@ -144,13 +150,30 @@ func (in *Interp) feasible(cond *smt.Term) bool {
 		return false
 	}
 	in.Stats.FeasQueries++
-	r := in.Sol.Check(in.Valid, in.Guard(), cond)
+	in.checkDeadline()
+	t0 := time.Now()
+	r := in.Sol.Check(in.Guard(), cond)
+	if SlowQueryLog != nil {
+		if d := time.Since(t0).Seconds(); d > 0.1 {
+			SlowQueryLog(fmt.Sprintf("feasibility %.2fs %v at %s (cond size %d, valid size %d)", d, r, in.posStr(in.curPos), smt.Size(cond), smt.Size(in.Valid)))
+		}
+	}
 	return r != smt.Unsat // unknown = keep
+}
+
+func (in *Interp) checkDeadline() {
+	if !in.Deadline.IsZero() && time.Now().After(in.Deadline) {
+		panic(in.unsupported("time budget of this configuration exceeded"))
+	}
 }
 
 // assume adds guard → c to the validity assumptions.
 func (in *Interp) assume(c *smt.Term) {
-	in.Valid = in.St.And(in.Valid, in.St.Implies(in.Guard(), c))
+	// Valid is asserted permanently in the solver: every later query is made under
+	// it, and every obligation is decided at the moment it is recorded.
+	imp := in.St.Implies(in.Guard(), c)
+	in.Valid = in.St.And(in.Valid, imp)
+	in.Sol.Assert(imp)
 }
 
 func (in *Interp) posStr(p token.Pos) string {
@@ -171,9 +194,12 @@ func (in *Interp) panicIf(c *smt.Term, kind string) {
 	if c.IsFalse() {
 		return
 	}
-	g := in.St.And(in.Valid, in.St.And(in.Guard(), c))
-	if in.PanicAsObligation && !g.IsFalse() {
-		in.Obls = append(in.Obls, &Obligation{Kind: "panic", Tag: kind, Pos: in.posStr(in.curPos), Guard: g, Cond: in.St.F})
+	g := in.St.And(in.Guard(), c)
+	if strings.HasPrefix(kind, "non-ascii") {
+		// modelling restriction (ASCII text), an assumption of the claim, never an obligation
+		in.Stats.Stubs["assume:ascii-text"]++
+	} else if in.PanicAsObligation && !g.IsFalse() {
+		in.AddObligation(&Obligation{Kind: "panic", Tag: kind, Pos: in.posStr(in.curPos), Guard: g, Cond: in.St.F})
 	}
 	in.assume(in.St.Not(c))
 	if c.IsTrue() {
@@ -307,10 +333,10 @@ type retExit struct {
 }
 
 type Frame struct {
-	fn    *ssa.Function
-	base  int // guard stack depth at entry
-	rets  []retExit
-	forks map[*ssa.BasicBlock]int
+	fn     *ssa.Function
+	base   int // guard stack depth at entry
+	rets   []retExit
+	forks  map[*ssa.BasicBlock]int
 	defers []func()
 }
 
@@ -480,6 +506,9 @@ func (in *Interp) runPath(fr *Frame, env Env, blk, pred, stop *ssa.BasicBlock) (
 			if in.Stats.Instrs > in.MaxInstrs {
 				panic(in.unsupported("instruction budget exceeded"))
 			}
+			if in.Stats.Instrs&1023 == 0 {
+				in.checkDeadline()
+			}
 			if p := ins.Pos(); p.IsValid() {
 				in.curPos = p
 			}
@@ -552,7 +581,7 @@ func (in *Interp) runPath(fr *Frame, env Env, blk, pred, stop *ssa.BasicBlock) (
 			fr.forks[blk]++
 			if fr.forks[blk] > in.MaxUnwind {
 				in.Stats.Unwind = append(in.Stats.Unwind, fmt.Sprintf("%s block %d", fr.fn, blk.Index))
-				in.Obls = append(in.Obls, &Obligation{Kind: "unwind", Tag: fr.fn.String(), Pos: in.posStr(in.curPos), Guard: in.St.And(in.Valid, in.Guard()), Cond: in.St.F})
+				in.AddObligation(&Obligation{Kind: "unwind", Tag: fr.fn.String(), Pos: in.posStr(in.curPos), Guard: in.Guard(), Cond: in.St.F})
 				in.assume(in.St.F)
 				return finish(nil, true)
 			}
